@@ -210,6 +210,21 @@ def search(res, tier, seed, deep=False):
                 if diff:
                     report("case-insensitive-settings:" + dn, dn + ".from_variable", dict(kind="case-kwargs", debiaser=dn, variable=var, kwarg=k, value=repr(v)), dict(differing_fields=diff),
                            "upper-case variable name with a keyword argument configures the debiaser differently from the lower-case name")
+    # 1bb. the 'experimental' warning is given on every initialisation, not only the first one in a process
+    exp_pairs = [(dn, v) for dn, cls in cl.items() for v in ("hurs", "tasmin", "psl", "rsds")]
+    for dn, v in exp_pairs:
+        kinds = []
+        for rep in range(2):
+            with warnings.catch_warnings(record=True) as w:
+                warnings.simplefilter("always")
+                try:
+                    cl[dn].from_variable(v); kinds.append("warn" if any("experimental" in str(x.message).lower() for x in w) else "silent")
+                except Exception:
+                    kinds.append("raise")
+        res.case(("from_variable-twice", dn, v))
+        if kinds[0] != kinds[1]:
+            report("from_variable-not-repeatable:" + dn, dn + ".from_variable", dict(kind="from-variable-twice", debiaser=dn, variable=v), kinds,
+                   "initialising the same (debiaser, variable) pair twice in one process behaves differently the second time")
     # 1c. two keyword arguments together: both override, whichever route from_variable takes
     PAIRS = {"running_window_length": 45, "running_window_step_length": 3, "censoring_threshold": 1e-4, "cdf_threshold": 1e-3, "delta_type": "additive",
              "pr_lower_threshold": 1e-5, "SSR": False, "running_window_mode": False, "ecdf_method": "step_function", "iecdf_method": "linear",
